@@ -69,6 +69,9 @@ theorem hdrShape_set (h : Header) (hs : HdrShape h) (rh sg : Bytes) (len cc : Na
 theorem hdrShape_contig (h : Header) (hs : HdrShape h) (cc : Nat) (h4 : U64 cc) : HdrShape { h with contiguous := cc } :=
   ⟨hs.key, hs.ns, hs.mkey, hs.pk, hs.sk, hs.ud, hs.reorgs, hs.fork, hs.len, hs.rootHash, hs.sig, h4⟩
 
+theorem hdrShape_nosecret (h : Header) (hs : HdrShape h) : HdrShape { h with secret := none } :=
+  ⟨hs.key, hs.ns, hs.mkey, hs.pk, (fun s hh => by cases hh), hs.ud, hs.reorgs, hs.fork, hs.len, hs.rootHash, hs.sig, hs.contig⟩
+
 /-! ### entries -/
 
 theorem encNodes_le (l : List Node) (h : NodesWF l) : (encNodes l).length ≤ 9 + 50 * l.length := by
